@@ -24,6 +24,7 @@ type parked struct {
 	name   string
 	ev     string
 	resume chan struct{}
+	since  time.Time
 }
 
 // Step is one scheduling decision: who was resumed, at which event, out of whom.
@@ -46,6 +47,20 @@ type Sched struct {
 	Panics  map[string]interface{}
 	// NoYield: goroutines whose yields are ignored (run freely)
 	disabled bool
+	// time goroutines spent held at yield points (summed over goroutines): wall-clock
+	// durations measured under the scheduler include it
+	heldNanos int64
+}
+
+// Held: total time goroutines have been held at yield points so far, including those held now.
+func (s *Sched) Held() time.Duration {
+	s.mu.Lock()
+	defer s.mu.Unlock()
+	d := time.Duration(s.heldNanos)
+	for _, p := range s.parked {
+		d += time.Since(p.since)
+	}
+	return d
 }
 
 var gidRe = regexp.MustCompile(`^goroutine (\d+) \[`)
@@ -109,10 +124,13 @@ func (s *Sched) Yield(ev string) {
 		s.libs++
 		s.names[id] = name
 	}
-	p := &parked{name: name, ev: ev, resume: make(chan struct{})}
+	p := &parked{name: name, ev: ev, resume: make(chan struct{}), since: time.Now()}
 	s.parked[name] = p
 	s.mu.Unlock()
 	<-p.resume
+	s.mu.Lock()
+	s.heldNanos += int64(time.Since(p.since))
+	s.mu.Unlock()
 }
 
 // Release lets every parked goroutine go and ignores all further yields (teardown).
